@@ -23,6 +23,7 @@ static const Part kParts[] = {
 	{"C14", "copy-matrix", 4000, 200000},
 	{"C14", "filewriter-matrix", 300, 20000},
 	{"C17", "resource-layout", 3000, 200000},
+	{"C18", "twin-env", 3000, 300000},
 	{"C20", "limits", 44, 104},
 };
 
